@@ -5,7 +5,7 @@ from .. import env, coq, runner, gates, tables, circuits
 
 LEVEL = 'proof'
 META = dict(
-    text='Coq theorems over the regenerated eigen tables, for all parameters at once (generic ring): powers add (U(r1,g1)U(r2,g2)=U(r1r2,g1g2)) for every family, exponent 0 is the identity, the controlled() overrides (C(X^t)=CX^t, C(Y^t)=CY^t, C(Z^t)=CZ^t, C(CZ^t)=CCZ^t, C(CX^t)=CCX^t) hold exactly at global shift 0 and are refuted otherwise, control of a product is the product of controls, phase_by is conjugation by the Z rotation; plus a correspondence that compares the matrices of the objects Cirq constructs (pow, inverse, controlled, controlled_by, phase_by) with the model and checks that every True answer of commutes / == / approx_eq / equal_up_to_global_phase / has_stabilizer_effect and the trace-distance bound is sound for the model matrices.',
+    text='Coq theorems over the regenerated eigen tables, for all parameters at once (generic ring): powers add (U(r1,g1)U(r2,g2)=U(r1r2,g1g2)) for every family, exponent 0 is the identity, the controlled() overrides (C(X^t)=CX^t, C(Y^t)=CY^t, C(Z^t)=CZ^t, C(CZ^t)=CCZ^t, C(CX^t)=CCX^t) hold exactly at global shift 0 and are refuted otherwise, control of a product is the product of controls, phase_by is conjugation by the Z rotation; plus a correspondence that compares the matrices of the objects Cirq constructs (pow, inverse, controlled, controlled_by, phase_by) with the model and checks that every True answer of commutes / == / approx_eq / equal_up_to_global_phase / has_stabilizer_effect and the trace-distance bound is sound for the model matrices. Control-value specifications are modelled (expand, &, |, validate, equality = same selected tuples = same controlled block matrix; the ProductOfSums short-cut of | is only a superset of the union) and compared; fixed grids: trace_distance_bound of every implementing class, has_stabilizer_effect at every combination of quarter / eighth-turn parameters, gates differing only by a global phase inside 14 wrappers, commutes between all pairs of single-qubit Clifford gate objects.',
     note='Trusted: Coq kernel; docstring transcriptions (GateSpecs.v); float instance with tolerances; numpy for the stabilizer-effect and trace-distance oracles. Soundness only: False/None answers of predicates are not alarms. The generic control-of-product theorem is proved for one control (qubit or qutrit) and one-qubit targets; other shapes are compared.',
     technique='Rocq/Coq proof of gate-algebra identities over regenerated tables + vm_compute correspondence on constructed objects and predicate answers',
 )
